@@ -167,8 +167,8 @@ Definition check_corr (c : case) : bool :=
       end
   | CVol true _ _ _ _ _ => true
   | CVol false p en en2 mm ws2 =>
-      match updated_program p (env_of en) (env_of en2) (mm_of mm) with
-      | Some l => ms_eqb (loop_windows l) ws2
+      match updated_windows p (env_of en) (env_of en2) (mm_of mm) with
+      | Some ws => ms_eqb ws ws2
       | None => false
       end
   | CPyOnly => true
